@@ -426,9 +426,9 @@ func (a *Act) havocPlace(st *State, m *Clause, env *SpecEnv) {
 			nl := vc.fresh("hlen", sInt)
 			vc.assume("true", "(>= "+nl+" 0)")
 			vc.setHeap(st, "ML", "(Array Int Int)", store(L, v.S, nl))
-			a.logHeap(dk)
-			a.logHeap(vk)
-			a.logHeap("ML")
+			a.logHeapAt(dk, v.S)
+			a.logHeapAt(vk, v.S)
+			a.logHeapAt("ML", v.S)
 		case *types.Slice:
 			a.havocRegion(st, "(sl_arr "+v.S+")", u.Elem())
 		default:
@@ -446,7 +446,7 @@ func (a *Act) havocPlace(st *State, m *Clause, env *SpecEnv) {
 			}
 			key, hs := ghostKey(gh)
 			vc.setHeap(st, key, hs, store(vc.getHeap(st, key, hs), idx, vc.fresh("gh_"+gh.Name, gh.ValSort)))
-			a.logHeap(key)
+			a.logHeapAt(key, idx)
 			return
 		}
 	}
@@ -476,7 +476,7 @@ func (a *Act) havocPlace(st *State, m *Clause, env *SpecEnv) {
 					k, srt := g.fieldHeapKey(si, i)
 					nv := a.freshVal("hf_"+f.Name, f.T)
 					vc.setHeap(st, k, srt, store(vc.getHeap(st, k, srt), addr, nv.S))
-					a.logHeap(k)
+					a.logHeapAt(k, addr)
 				}
 				return
 			}
@@ -495,7 +495,7 @@ func (a *Act) havocStruct(st *State, addr string, t types.Type) {
 		k, hs := memKey(g.sortOf(t))
 		nv := a.freshVal("hv", t)
 		a.vc.setHeap(st, k, hs, store(a.vc.getHeap(st, k, hs), addr, nv.S))
-		a.logHeap(k)
+		a.logHeapAt(k, addr)
 		return
 	}
 	for i, f := range si.Fields {
@@ -505,7 +505,7 @@ func (a *Act) havocStruct(st *State, addr string, t types.Type) {
 			k, srt := g.fieldHeapKey(si, i)
 			nv := a.freshVal("hf_"+f.Name, f.T)
 			a.vc.setHeap(st, k, srt, store(a.vc.getHeap(st, k, srt), addr, nv.S))
-			a.logHeap(k)
+			a.logHeapAt(k, addr)
 		}
 	}
 }
@@ -513,31 +513,27 @@ func (a *Act) havocStruct(st *State, addr string, t types.Type) {
 // havocRegion havocs all elements of the array arr (element type et).
 func (a *Act) havocRegion(st *State, arr string, et types.Type) {
 	vc := a.vc
-	g := vc.g
-	var keys []struct{ k, s string }
-	var collect func(t types.Type)
-	collect = func(t types.Type) {
-		if si := g.structInfoOf(t); si != nil {
-			for i, f := range si.Fields {
-				if g.structInfoOf(f.T) != nil {
-					collect(f.T)
-				} else {
-					k, s := g.fieldHeapKey(si, i)
-					keys = append(keys, struct{ k, s string }{k, s})
-				}
-			}
-			return
+	arrN := vc.define("harr", sInt, arr)
+	// several element fields can share one heap key (e.g. two fields of the same nested struct type)
+	byKey := map[string][]elemKey{}
+	var order []string
+	for _, ek := range a.elemKeys(et) {
+		if _, ok := byKey[ek.key]; !ok {
+			order = append(order, ek.key)
 		}
-		k, s := memKey(g.sortOf(t))
-		keys = append(keys, struct{ k, s string }{k, s})
+		byKey[ek.key] = append(byKey[ek.key], ek)
 	}
-	collect(et)
-	for _, ks := range keys {
-		old := vc.getHeap(st, ks.k, ks.s)
-		nh := vc.fresh("Hr_"+ks.k, ks.s)
-		vc.assume("true", fmt.Sprintf("(forall ((x Int)) (! (=> (not (= (base x) (base %s))) (= (select %s x) (select %s x))) :pattern ((select %s x))))", arr, nh, old, nh))
-		st.heap[ks.k] = nh
-		a.logHeap(ks.k)
+	for _, k := range order {
+		eks := byKey[k]
+		old := vc.getHeap(st, k, eks[0].sort)
+		nh := vc.fresh("Hr_"+k, eks[0].sort)
+		var members []string
+		for _, ek := range eks {
+			members = append(members, vc.g.regionMember("x", arrN, ek.path))
+		}
+		vc.assume("true", fmt.Sprintf("(forall ((x Int)) (! (=> (not %s) (= (select %s x) (select %s x))) :pattern ((select %s x))))", or(members...), nh, old, nh))
+		st.heap[k] = nh
+		a.logHeap(k)
 	}
 }
 
